@@ -222,7 +222,12 @@ func genSchema(r *rand.Rand) *schema {
 	s := &schema{}
 	nFiles := 2 + r.Intn(2)
 	for i := 0; i < nFiles; i++ {
-		s.Files = append(s.Files, &schemaFile{Name: string(rune('a'+i)) + ".graphql"})
+		name := string(rune('a' + i))
+		if nFiles == 3 {
+			// mixed-case file names: the resolver file of a schema file keeps the schema file's case
+			name = []string{"a", "Bee", "cX"}[i]
+		}
+		s.Files = append(s.Files, &schemaFile{Name: name + ".graphql"})
 	}
 	// object types first (so fields may reference them)
 	nObj := 1 + r.Intn(3)
